@@ -2,27 +2,84 @@ import Model.Bytes
 /-!
 # The genesis file (pkg/genesis/genesis.go, io.go)
 
-`Genesis.Save` writes the four fields with `encoding/json`; `LoadGenesis` reads them back and
-refuses what `Validate` refuses.  `encoding/json` is modelled as a faithful field-wise codec:
-strings and numbers are preserved, a nil `[]byte` is `null` and comes back nil, an empty non-nil
-slice is `""` and comes back empty and non-nil, a `time.Time` is written as RFC 3339 with
-nanoseconds and numeric zone offset, so the instant and the offset survive and the
-`*time.Location` (its name) does not.  Core Lean only.
+`Genesis.Save` = `json.MarshalIndent(g, "", "  ")` + `os.WriteFile` (create or TRUNCATE);
+`LoadGenesis` = `os.ReadFile` + `json.Unmarshal` + `Validate`.
+
+Three layers:
+
+* **fields** (`encode` / `decodeDoc`): what `encoding/json` does to the four values.  Strings:
+  every byte that is not part of a valid UTF-8 sequence becomes U+FFFD.  `time.Time`: RFC 3339 with
+  nanoseconds; `MarshalJSON` fails for a year outside 0..9999 (in the value's own zone) and for a
+  zone offset of 24 h or more; the seconds of a zone offset are dropped, the wall clock is kept, so
+  the instant SHIFTS; the `*time.Location` (its name) is lost.  `[]byte`: nil ↔ `null`, otherwise
+  base64.  `uint64`: decimal.
+* **text** (`render` / `parse`): the bytes of the file, exactly as `MarshalIndent` lays them out,
+  and a parser for that layout (optional white space after the closing brace, nothing else).
+* **disk** (`writeTrunc` / `writeNoTrunc`, `loadAt`): paths hold BYTES.  `os.WriteFile` replaces the
+  content; a writer that opens without `O_TRUNC` overwrites a prefix and leaves the tail.
+
+A `time.Time` is kept as the wall-clock fields in its own zone (that is what RFC 3339 prints), the
+instant is computed from them (`GoTime.unix`).  Core Lean only; structural recursion or fuel.
 -/
 namespace GenesisFile
+
+/-! ## time -/
 
 /-- Unix seconds of Go's zero `time.Time` (0001-01-01T00:00:00Z) -/
 def zeroUnix : Int := -62135596800
 
+/-- days since 1970-01-01 of a proleptic Gregorian date -/
+def daysFromCivil (y : Int) (m d : Nat) : Int :=
+  let y' : Int := if m ≤ 2 then y - 1 else y
+  let era := y' / 400
+  let yoe := y' % 400
+  let mp : Int := ((m + 9) % 12 : Nat)
+  let doy := (153 * mp + 2) / 5 + (d : Int) - 1
+  let doe := yoe * 365 + yoe / 4 - yoe / 100 + doy
+  era * 146097 + doe - 719468
+
+/-- the inverse direction (used by the driver to turn the op's Unix seconds into wall-clock fields) -/
+def civilFromDays (z : Int) : Int × Nat × Nat :=
+  let z := z + 719468
+  let era := z / 146097
+  let doe := z % 146097
+  let yoe := (doe - doe / 1460 + doe / 36524 - doe / 146096) / 365
+  let y := yoe + era * 400
+  let doy := doe - (365 * yoe + yoe / 4 - yoe / 100)
+  let mp := (5 * doy + 2) / 153
+  let d := doy - (153 * mp + 2) / 5 + 1
+  let m := if mp < 10 then mp + 3 else mp - 9
+  (if m ≤ 2 then y + 1 else y, m.toNat, d.toNat)
+
+/-- a `time.Time`: wall clock in its own zone, zone offset, name of the location -/
 structure GoTime where
-  unix : Int          -- seconds since the Unix epoch
+  year : Int
+  month : Nat
+  day : Nat
+  hour : Nat
+  min : Nat
+  sec : Nat
   nsec : Nat
-  offMin : Int        -- zone offset east of UTC, minutes
+  offSec : Int        -- zone offset east of UTC, SECONDS
   locName : String    -- name of the location the value carries (not part of the instant)
   deriving DecidableEq, Repr
 
+/-- the instant, Unix seconds -/
+def GoTime.unix (t : GoTime) : Int :=
+  daysFromCivil t.year t.month t.day * 86400 + ((t.hour * 3600 + t.min * 60 + t.sec : Nat) : Int) - t.offSec
+
 /-- `time.Time.IsZero`: the instant is January 1, year 1, 00:00:00 UTC, whatever the location -/
 def GoTime.isZero (t : GoTime) : Bool := t.unix == zeroUnix && t.nsec == 0
+
+/-- the `time.Time` of an instant in a zone: `time.Unix(unix, nsec).In(FixedZone(loc, offSec))` -/
+def GoTime.ofUnix (unix : Int) (nsec : Nat) (offSec : Int) (loc : String) : GoTime :=
+  let l := unix + offSec
+  let (y, m, d) := civilFromDays (l / 86400)
+  let sod := (l % 86400).toNat
+  { year := y, month := m, day := d, hour := sod / 3600, min := sod % 3600 / 60, sec := sod % 60,
+    nsec := nsec, offSec := offSec, locName := loc }
+
+/-! ## the genesis and `Validate` -/
 
 structure Genesis where
   chainId : Bytes
@@ -48,61 +105,383 @@ def validate (g : Genesis) : Option Refusal :=
   else if g.proposer.isNone then some .proposer
   else none
 
-/-- the JSON document, field-wise -/
+/-! ## layer 1: fields — what `encoding/json` does to the values -/
+
+/-- one step of Go's `utf8.DecodeRune`: `some n` = a valid sequence of `n` bytes starts here,
+`none` = the first byte is not the start of a valid sequence (Go: `RuneError`, width 1) -/
+def utf8Width : Bytes → Option Nat
+  | [] => none
+  | b0 :: rest =>
+    let cont (b : UInt8) : Bool := 0x80 ≤ b.toNat && b.toNat ≤ 0xBF
+    let n0 := b0.toNat
+    if n0 < 0x80 then some 1
+    else if 0xC2 ≤ n0 && n0 ≤ 0xDF then
+      match rest with
+      | b1 :: _ => if cont b1 then some 2 else none
+      | _ => none
+    else if 0xE0 ≤ n0 && n0 ≤ 0xEF then
+      match rest with
+      | b1 :: b2 :: _ =>
+        let lo := if n0 = 0xE0 then 0xA0 else 0x80
+        let hi := if n0 = 0xED then 0x9F else 0xBF
+        if lo ≤ b1.toNat && b1.toNat ≤ hi && cont b2 then some 3 else none
+      | _ => none
+    else if 0xF0 ≤ n0 && n0 ≤ 0xF4 then
+      match rest with
+      | b1 :: b2 :: b3 :: _ =>
+        let lo := if n0 = 0xF0 then 0x90 else 0x80
+        let hi := if n0 = 0xF4 then 0x8F else 0xBF
+        if lo ≤ b1.toNat && b1.toNat ≤ hi && cont b2 && cont b3 then some 4 else none
+      | _ => none
+    else none
+
+/-- U+FFFD in UTF-8 -/
+def replacement : Bytes := [0xEF, 0xBF, 0xBD]
+
+/-- the string `encoding/json` writes (and reads back): every byte outside a valid UTF-8 sequence
+replaced by U+FFFD -/
+def sanitizeAux : Nat → Bytes → Bytes
+  | 0, _ => []
+  | _, [] => []
+  | fuel + 1, b :: rest =>
+    match utf8Width (b :: rest) with
+    | some n => (b :: rest).take n ++ sanitizeAux fuel ((b :: rest).drop n)
+    | none => replacement ++ sanitizeAux fuel rest
+
+def sanitize (s : Bytes) : Bytes := sanitizeAux s.length s
+
+def validUtf8 (s : Bytes) : Bool := sanitize s == s
+
+/-- Go's integer division (towards zero): zone offset in whole minutes -/
+def offMinutes (o : Int) : Int := if o ≥ 0 then o / 60 else -((-o) / 60)
+
+inductive EncErr where
+  | yearRange     -- "Time.MarshalJSON: year outside of range [0,9999]"
+  | zoneHour      -- "Time.MarshalJSON: timezone hour outside of range [0,23]"
+  deriving DecidableEq, Repr
+
+def EncErr.toString : EncErr → String
+  | .yearRange => "year" | .zoneHour => "zonehour"
+
+/-- the time the file denotes: same wall clock, zone offset cut to whole minutes, no location name -/
+def encodeTime (t : GoTime) : Except EncErr GoTime :=
+  if t.year < 0 || t.year > 9999 then .error .yearRange
+  else if (offMinutes t.offSec).natAbs / 60 ≥ 24 then .error .zoneHour
+  else .ok { t with offSec := offMinutes t.offSec * 60, locName := "" }
+
+/-- the document: the four values as the file denotes them -/
 structure JFile where
   chainId : Bytes
-  unix : Int
-  nsec : Nat
-  offMin : Int
+  time : GoTime
   initialHeight : Nat
   proposer : Option Bytes
   deriving DecidableEq, Repr
 
-/-- `Genesis.Save` (no validation) -/
-def save (g : Genesis) : JFile :=
-  { chainId := g.chainId, unix := g.time.unix, nsec := g.time.nsec, offMin := g.time.offMin,
-    initialHeight := g.initialHeight, proposer := g.proposer }
+/-- `json.Marshal`, field level -/
+def encode (g : Genesis) : Except EncErr JFile :=
+  match encodeTime g.time with
+  | .error e => .error e
+  | .ok t => .ok { chainId := sanitize g.chainId, time := t, initialHeight := g.initialHeight, proposer := g.proposer }
 
-def parse (j : JFile) : Genesis :=
-  { chainId := j.chainId, time := { unix := j.unix, nsec := j.nsec, offMin := j.offMin, locName := "" },
-    initialHeight := j.initialHeight, proposer := j.proposer }
+/-- `json.Unmarshal`, field level -/
+def decodeDoc (j : JFile) : Genesis :=
+  { chainId := j.chainId, time := j.time, initialHeight := j.initialHeight, proposer := j.proposer }
 
-/-- `LoadGenesis` on a well-formed JSON document -/
-def load (j : JFile) : Except Refusal Genesis :=
-  match validate (parse j) with
-  | some r => .error r
-  | none => .ok (parse j)
+/-- **the values `encoding/json` preserves**: a year the format can print, a zone offset of whole
+minutes below 24 h, a chain id that is valid UTF-8 -/
+def GenesisEncodable (g : Genesis) : Bool :=
+  (0 ≤ g.time.year && g.time.year ≤ 9999) && g.time.offSec.natAbs < 86400 &&
+  g.time.offSec % 60 == 0 && validUtf8 g.chainId
 
-/-! ## Paths: a file that exists already is replaced, not patched
+/-- equality modulo the time location -/
+def normLoc (g : Genesis) : Genesis := { g with time := { g.time with locName := "" } }
 
-`Save` is `os.WriteFile` (create or TRUNCATE): after it the path holds exactly the new document,
-whatever - longer or shorter - it held before.  `LoadGenesis` of a path that holds no file is refused. -/
+/-! ## layer 2: text — the bytes of the file -/
 
-/-- the genesis files of a scenario, by path (newest entry first; the first entry of a path wins) -/
-abbrev Disk := List (Nat × JFile)
+def ch (c : Char) : UInt8 := c.toNat.toUInt8
+def str (s : String) : Bytes := s.toList.map ch
+
+def digitsAux : Nat → Nat → Bytes → Bytes
+  | 0, _, acc => acc
+  | fuel + 1, n, acc =>
+    let acc := (48 + n % 10).toUInt8 :: acc
+    if n / 10 = 0 then acc else digitsAux fuel (n / 10) acc
+
+/-- decimal digits of `n` (`strconv.AppendUint`) -/
+def digits (n : Nat) : Bytes := digitsAux (n + 1) n []
+
+/-- `n` in exactly `w` digits (the low `w` ones), zero padded -/
+def padded : Nat → Nat → Bytes
+  | 0, _ => []
+  | w + 1, n => padded w (n / 10) ++ [(48 + n % 10).toUInt8]
+
+def dropTrailingZeros (bs : Bytes) : Bytes := (bs.reverse.dropWhile (· == 48)).reverse
+
+def hexDigitLower (n : Nat) : UInt8 := if n < 10 then (48 + n).toUInt8 else (87 + n).toUInt8
+
+/-- `\uXXXX` -/
+def uEscape (cp : Nat) : Bytes :=
+  str "\\u" ++ [hexDigitLower (cp / 4096 % 16), hexDigitLower (cp / 256 % 16), hexDigitLower (cp / 16 % 16), hexDigitLower (cp % 16)]
+
+/-- the body of the JSON string literal `encoding/json` (Go ≥ 1.22, `EscapeHTML` on) writes for `s` -/
+def escapeAux : Nat → Bytes → Bytes
+  | 0, _ => []
+  | _, [] => []
+  | fuel + 1, b :: rest =>
+    let n := b.toNat
+    if n < 0x80 then
+      (if b = ch '"' then str "\\\""
+       else if b = ch '\\' then str "\\\\"
+       else if n = 8 then str "\\b" else if n = 12 then str "\\f"
+       else if n = 10 then str "\\n" else if n = 13 then str "\\r" else if n = 9 then str "\\t"
+       else if n < 0x20 || b = ch '<' || b = ch '>' || b = ch '&' then uEscape n
+       else [b]) ++ escapeAux fuel rest
+    else
+      match utf8Width (b :: rest) with
+      | none => uEscape 0xFFFD ++ escapeAux fuel rest
+      | some w =>
+        let sq := (b :: rest).take w
+        (if sq = [0xE2, 0x80, 0xA8] then uEscape 0x2028 else if sq = [0xE2, 0x80, 0xA9] then uEscape 0x2029 else sq)
+          ++ escapeAux fuel ((b :: rest).drop w)
+
+def escape (s : Bytes) : Bytes := escapeAux s.length s
+
+def b64Char (n : Nat) : UInt8 :=
+  if n < 26 then (65 + n).toUInt8 else if n < 52 then (71 + n).toUInt8 else if n < 62 then (n - 4).toUInt8
+  else if n = 62 then ch '+' else ch '/'
+
+/-- standard base64 with padding (`[]byte` in JSON) -/
+def base64 : Bytes → Bytes
+  | [] => []
+  | [a] => [b64Char (a.toNat / 4), b64Char (a.toNat % 4 * 16), ch '=', ch '=']
+  | [a, b] => [b64Char (a.toNat / 4), b64Char (a.toNat % 4 * 16 + b.toNat / 16), b64Char (b.toNat % 16 * 4), ch '=']
+  | a :: b :: c :: rest =>
+    [b64Char (a.toNat / 4), b64Char (a.toNat % 4 * 16 + b.toNat / 16), b64Char (b.toNat % 16 * 4 + c.toNat / 64),
+     b64Char (c.toNat % 64)] ++ base64 rest
+
+/-- RFC 3339 with nanoseconds, as `time.Time.MarshalJSON` prints it (year 0..9999) -/
+def renderTime (t : GoTime) : Bytes :=
+  let frac := if t.nsec = 0 then [] else ch '.' :: dropTrailingZeros (padded 9 t.nsec)
+  let zm := offMinutes t.offSec
+  let zone := if t.offSec = 0 then [ch 'Z'] else     -- `Z` only for offset 0; 30 s east prints `+00:00`
+    (if zm < 0 then ch '-' else ch '+') :: (padded 2 (zm.natAbs / 60) ++ [ch ':'] ++ padded 2 (zm.natAbs % 60))
+  padded 4 t.year.toNat ++ [ch '-'] ++ padded 2 t.month ++ [ch '-'] ++ padded 2 t.day ++ [ch 'T'] ++
+  padded 2 t.hour ++ [ch ':'] ++ padded 2 t.min ++ [ch ':'] ++ padded 2 t.sec ++ frac ++ zone
+
+/-- `json.MarshalIndent(g, "", "  ")` for a genesis `encode` accepts, from the values as the genesis
+holds them: a byte of the chain id that is not valid UTF-8 is written as the escape `\ufffd` (a
+genuine U+FFFD raw); the zone is `Z` only for offset 0 (30 s east prints `+00:00`) -/
+def renderGenesis (g : Genesis) : Bytes :=
+  str "{\n  \"chain_id\": \"" ++ escape g.chainId ++
+  str "\",\n  \"genesis_da_start_height\": \"" ++ renderTime g.time ++
+  str "\",\n  \"initial_height\": " ++ digits g.initialHeight ++
+  str ",\n  \"proposer_address\": " ++
+  (match g.proposer with | none => str "null" | some p => [ch '"'] ++ base64 p ++ [ch '"']) ++
+  str "\n}"
+
+/-- the text of a document (its chain id is valid UTF-8 already) -/
+def render (j : JFile) : Bytes := renderGenesis (decodeDoc j)
+
+/-! ### the parser (for exactly this layout) -/
+
+def expect : Bytes → Bytes → Option Bytes
+  | [], bs => some bs
+  | _ :: _, [] => none
+  | l :: ls, b :: bs => if l = b then expect ls bs else none
+
+def hexVal (b : UInt8) : Option Nat :=
+  let n := b.toNat
+  if 48 ≤ n && n ≤ 57 then some (n - 48) else if 97 ≤ n && n ≤ 102 then some (n - 87)
+  else if 65 ≤ n && n ≤ 70 then some (n - 55) else none
+
+/-- UTF-8 of a code point of the basic plane (what `\uXXXX` denotes; surrogates → U+FFFD) -/
+def utf8OfBmp (cp : Nat) : Bytes :=
+  if cp < 0x80 then [cp.toUInt8]
+  else if cp < 0x800 then [(0xC0 + cp / 64).toUInt8, (0x80 + cp % 64).toUInt8]
+  else if 0xD800 ≤ cp && cp ≤ 0xDFFF then replacement
+  else [(0xE0 + cp / 4096).toUInt8, (0x80 + cp / 64 % 64).toUInt8, (0x80 + cp % 64).toUInt8]
+
+/-- the body of a JSON string literal up to the closing quote: (value, rest after the quote) -/
+def parseStringBody : Nat → Bytes → Bytes → Option (Bytes × Bytes)
+  | 0, _, _ => none
+  | _, [], _ => none
+  | fuel + 1, b :: rest, acc =>
+    if b = ch '"' then some (acc.reverse, rest)
+    else if b = ch '\\' then
+      match rest with
+      | e :: rest' =>
+        if e = ch 'u' then
+          match rest' with
+          | h1 :: h2 :: h3 :: h4 :: rest'' =>
+            match hexVal h1, hexVal h2, hexVal h3, hexVal h4 with
+            | some a, some b', some c, some d =>
+              parseStringBody fuel rest'' ((utf8OfBmp (a * 4096 + b' * 256 + c * 16 + d)).reverse ++ acc)
+            | _, _, _, _ => none
+          | _ => none
+        else
+          let one (v : UInt8) := parseStringBody fuel rest' (v :: acc)
+          if e = ch '"' then one (ch '"') else if e = ch '\\' then one (ch '\\') else if e = ch '/' then one (ch '/')
+          else if e = ch 'b' then one 8 else if e = ch 'f' then one 12 else if e = ch 'n' then one 10
+          else if e = ch 'r' then one 13 else if e = ch 't' then one 9 else none
+      | [] => none
+    else if b.toNat < 0x20 then none          -- a control character must be escaped
+    else parseStringBody fuel rest (b :: acc)
+
+def isDigitB (b : UInt8) : Bool := 48 ≤ b.toNat && b.toNat ≤ 57
+
+def natOfDigits (ds : Bytes) : Nat := ds.foldl (fun n b => n * 10 + (b.toNat - 48)) 0
+
+/-- exactly `w` digits -/
+def parseFixed (w : Nat) (bs : Bytes) : Option (Nat × Bytes) :=
+  let ds := bs.take w
+  if ds.length = w && ds.all isDigitB then some (natOfDigits ds, bs.drop w) else none
+
+def b64Val (b : UInt8) : Option Nat :=
+  let n := b.toNat
+  if 65 ≤ n && n ≤ 90 then some (n - 65) else if 97 ≤ n && n ≤ 122 then some (n - 71)
+  else if 48 ≤ n && n ≤ 57 then some (n + 4) else if b = ch '+' then some 62 else if b = ch '/' then some 63 else none
+
+/-- standard base64 with padding (strict: canonical padding bits) -/
+def unbase64 : Bytes → Option Bytes
+  | [] => some []
+  | [a, b, c, d] =>
+    match b64Val a, b64Val b with
+    | some x, some y =>
+      if c = ch '=' && d = ch '=' then (if y % 16 = 0 then some [(x * 4 + y / 16).toUInt8] else none)
+      else match b64Val c with
+        | some z =>
+          if d = ch '=' then (if z % 4 = 0 then some [(x * 4 + y / 16).toUInt8, (y % 16 * 16 + z / 4).toUInt8] else none)
+          else match b64Val d with
+            | some w => some [(x * 4 + y / 16).toUInt8, (y % 16 * 16 + z / 4).toUInt8, (z % 4 * 64 + w).toUInt8]
+            | none => none
+        | none => none
+    | _, _ => none
+  | a :: b :: c :: d :: rest =>
+    match b64Val a, b64Val b, b64Val c, b64Val d, unbase64 rest with
+    | some x, some y, some z, some w, some r =>
+      some ((x * 4 + y / 16).toUInt8 :: (y % 16 * 16 + z / 4).toUInt8 :: (z % 4 * 64 + w).toUInt8 :: r)
+    | _, _, _, _, _ => none
+  | _ => none
+
+/-- `time.Time.UnmarshalJSON` (strict RFC 3339) on the text after the opening quote: (time, rest after the closing quote) -/
+def parseTime (bs : Bytes) : Option (GoTime × Bytes) := do
+  let (y, bs) ← parseFixed 4 bs
+  let bs ← expect [ch '-'] bs
+  let (mo, bs) ← parseFixed 2 bs
+  let bs ← expect [ch '-'] bs
+  let (d, bs) ← parseFixed 2 bs
+  let bs ← expect [ch 'T'] bs
+  let (h, bs) ← parseFixed 2 bs
+  let bs ← expect [ch ':'] bs
+  let (mi, bs) ← parseFixed 2 bs
+  let bs ← expect [ch ':'] bs
+  let (s, bs) ← parseFixed 2 bs
+  let (ns, bs) ← (match bs with
+    | b :: rest =>
+      if b = ch '.' then
+        let ds := rest.takeWhile isDigitB
+        if ds.isEmpty || ds.length > 9 then none
+        else some (natOfDigits (ds ++ List.replicate (9 - ds.length) 48), rest.dropWhile isDigitB)
+      else some (0, bs)
+    | [] => none)
+  let (off, bs) ← (match bs with
+    | b :: rest =>
+      if b = ch 'Z' then some ((0 : Int), rest)
+      else if b = ch '+' || b = ch '-' then do
+        let (zh, r) ← parseFixed 2 rest
+        let r ← expect [ch ':'] r
+        let (zmn, r) ← parseFixed 2 r
+        if zh ≥ 24 || zmn ≥ 60 then none
+        else
+          let v : Int := ((zh * 3600 + zmn * 60 : Nat) : Int)
+          some (if b = ch '-' then -v else v, r)
+      else none
+    | [] => none)
+  let bs ← expect [ch '"'] bs
+  if mo < 1 || mo > 12 || d < 1 || d > 31 || h ≥ 24 || mi ≥ 60 || s ≥ 60 then none
+  else some ({ year := y, month := mo, day := d, hour := h, min := mi, sec := s, nsec := ns, offSec := off, locName := "" }, bs)
+
+def isJsonSpace (b : UInt8) : Bool := b = 32 || b = 9 || b = 10 || b = 13
+
+/-- `json.Unmarshal` of a file in the layout `render` produces -/
+def parse (bs : Bytes) : Option JFile := do
+  let bs ← expect (str "{\n  \"chain_id\": \"") bs
+  let (cid, bs) ← parseStringBody (bs.length + 1) bs []
+  let bs ← expect (str ",\n  \"genesis_da_start_height\": \"") bs
+  let (t, bs) ← parseTime bs
+  let bs ← expect (str ",\n  \"initial_height\": ") bs
+  let ds := bs.takeWhile isDigitB
+  let bs := bs.dropWhile isDigitB
+  if ds.isEmpty || (ds.length > 1 && ds.head? == some 48) then none else
+  let bs ← expect (str ",\n  \"proposer_address\": ") bs
+  let (p, bs) ← (match expect (str "null") bs with
+    | some r => some (none, r)
+    | none => do
+      let r ← expect [ch '"'] bs
+      let body := r.takeWhile (· ≠ ch '"')
+      let r ← expect [ch '"'] (r.dropWhile (· ≠ ch '"'))
+      let v ← unbase64 body
+      some (some v, r))
+  let bs ← expect (str "\n}") bs
+  if bs.all isJsonSpace then
+    some { chainId := cid, time := t, initialHeight := natOfDigits ds, proposer := p }
+  else none    -- "invalid character … after top-level value"
+
+/-- parser ∘ printer gives the document the values denote: decidable, evaluated by the driver for
+every genesis it writes (the model LOADS by parsing the bytes it rendered), not proved for all -/
+def TextRoundTrips (g : Genesis) : Bool :=
+  match encode g with
+  | .error _ => true
+  | .ok j => parse (renderGenesis g) == some j
+
+/-! ## layer 3: disk — paths hold bytes -/
+
+/-- the files of a scenario, by path (newest entry first; the first entry of a path wins) -/
+abbrev Disk := List (Nat × Bytes)
+
+def Disk.read (d : Disk) (p : Nat) : Option Bytes := d.lookup p
+
+/-- `os.WriteFile`: create or truncate, then write -/
+def writeTrunc (d : Disk) (p : Nat) (bs : Bytes) : Disk := (p, bs) :: d
+
+/-- a writer that opens with `O_WRONLY|O_CREATE` only: the new bytes over the old ones, the old tail stays -/
+def writeNoTrunc (d : Disk) (p : Nat) (bs : Bytes) : Disk :=
+  (p, bs ++ ((d.lookup p).getD []).drop bs.length) :: d
+
+abbrev Writer := Disk → Nat → Bytes → Disk
+
+/-- `Genesis.Save` with the given file writer: nothing is written when marshalling fails -/
+def saveWith (w : Writer) (d : Disk) (p : Nat) (g : Genesis) : Except EncErr Disk :=
+  match encode g with
+  | .error e => .error e
+  | .ok _ => .ok (w d p (renderGenesis g))
+
+/-- `Genesis.Save` -/
+def saveAt : Disk → Nat → Genesis → Except EncErr Disk := saveWith writeTrunc
 
 /-- why `LoadGenesis` refuses -/
 inductive LoadErr where
   | noFile                      -- nothing at the path
+  | unparsable                  -- `json.Unmarshal` refuses the bytes
   | refused (r : Refusal)       -- `Validate` refuses what the file holds
   deriving DecidableEq, Repr
 
 def LoadErr.toString : LoadErr → String
-  | .noFile => "nofile" | .refused r => r.toString
+  | .noFile => "nofile" | .unparsable => "unparsable" | .refused r => r.toString
 
-/-- `Genesis.Save` to a path -/
-def saveAt (d : Disk) (p : Nat) (g : Genesis) : Disk := (p, save g) :: d
+/-- `LoadGenesis` on bytes -/
+def loadBytes (bs : Bytes) : Except LoadErr Genesis :=
+  match parse bs with
+  | none => .error .unparsable
+  | some j =>
+    match validate (decodeDoc j) with
+    | some r => .error (.refused r)
+    | none => .ok (decodeDoc j)
 
 /-- `LoadGenesis` from a path -/
 def loadAt (d : Disk) (p : Nat) : Except LoadErr Genesis :=
-  match d.lookup p with
+  match d.read p with
   | none => .error .noFile
-  | some j =>
-    match load j with
-    | .ok g => .ok g
-    | .error r => .error (.refused r)
-
-/-- equality modulo the time location -/
-def normLoc (g : Genesis) : Genesis := { g with time := { g.time with locName := "" } }
+  | some bs => loadBytes bs
 
 end GenesisFile
